@@ -309,12 +309,59 @@ void Dispatch(int id, const void *obj) {
 }
 #endif
 
+
+// ---------------------------------------------------------------- element type with injectable copy failure
+// PCQueue promises the strong exception guarantee if T::operator= throws.  Elem::operator= throws CopyFail when the
+// calling thread's fail control says so: driven mode = the listed attempt numbers of this thread (an attempt = one
+// operator= executed by the thread, i.e. one critical-section body), free mode = with probability fail_pct.
+struct CopyFail {};
+struct FailCtl {
+  const std::vector<long> *fail_at;
+  long attempt;
+  int fail_pct;
+  unsigned rng;
+  FailCtl() : fail_at(0), attempt(0), fail_pct(0), rng(1) {}
+};
+thread_local FailCtl fail_ctl;
+struct Elem {
+  long v;
+  Elem() : v(-1) {}
+  explicit Elem(long x) : v(x) {}
+  Elem(const Elem &o) : v(o.v) {}
+  Elem &operator=(const Elem &o) {
+    FailCtl &f = fail_ctl;
+    long a = f.attempt++;
+    if (f.fail_at) {
+      for (size_t i = 0; i < f.fail_at->size(); ++i) if ((*f.fail_at)[i] == a) throw CopyFail();
+    }
+    if (f.fail_pct) {
+      f.rng ^= f.rng << 13; f.rng ^= f.rng >> 17; f.rng ^= f.rng << 5;
+      if ((int)(f.rng % 100) < f.fail_pct) throw CopyFail();
+    }
+    v = o.v;
+    return *this;
+  }
+};
+void ProduceRetry(util::PCQueue<Elem> &queue, long v) {
+  Elem e(v);
+  while (true) {
+    try { queue.Produce(e); return; } catch (const CopyFail &) {}   // the caller retries the same value
+  }
+}
+long ConsumeRetry(util::PCQueue<Elem> &queue) {
+  Elem out;
+  while (true) {
+    try { queue.Consume(out); return out.v; } catch (const CopyFail &) {}
+  }
+}
+
 // ---------------------------------------------------------------- PCQueue case
 struct PcqCase {
   long cap;
   std::vector<std::vector<long> > prods;
   std::vector<long> quotas;
   std::vector<long> sched;
+  std::vector<std::vector<long> > fails;   // per thread: attempt numbers whose copy throws
   long probe;   // -2: none; -1: lowest blocked thread; >= 0: that thread
   PcqCase() : cap(1), probe(-2) {}
 };
@@ -337,7 +384,7 @@ void Die(const std::string &line) {
 
 std::string RunPcq(const PcqCase &c) {
   const size_t P = c.prods.size(), C = c.quotas.size();
-  util::PCQueue<long> queue(c.cap);
+  util::PCQueue<Elem> queue(c.cap);
   std::vector<std::vector<long> > got(C);
   std::vector<std::thread> threads;
   std::ostringstream out;
@@ -352,15 +399,19 @@ std::string RunPcq(const PcqCase &c) {
   for (size_t p = 0; p < P; ++p) {
     threads.push_back(std::thread([&, p] {
       ManagedBegin((int)p);
-      for (size_t i = 0; i < c.prods[p].size(); ++i) queue.Produce(c.prods[p][i]);
+      fail_ctl = FailCtl();
+      if (p < c.fails.size()) fail_ctl.fail_at = &c.fails[p];
+      for (size_t i = 0; i < c.prods[p].size(); ++i) ProduceRetry(queue, c.prods[p][i]);
       ManagedEnd();
     }));
   }
   for (size_t k = 0; k < C; ++k) {
     threads.push_back(std::thread([&, k] {
       ManagedBegin((int)(P + k));
+      fail_ctl = FailCtl();
+      if (P + k < c.fails.size()) fail_ctl.fail_at = &c.fails[P + k];
       for (long i = 0; i < c.quotas[k]; ++i) {
-        long v = queue.Consume();
+        long v = ConsumeRetry(queue);
         got[k].push_back(v);   // only this thread writes got[k]; read by the controller while parked
       }
       ManagedEnd();
@@ -444,9 +495,9 @@ std::string RunPcq(const PcqCase &c) {
 }
 
 
-std::string RunPcqFree(const PcqCase &c, unsigned seed, int perturb, bool record, int signals) {
+std::string RunPcqFree(const PcqCase &c, unsigned seed, int perturb, bool record, int signals, int failpct) {
   const size_t P = c.prods.size(), C = c.quotas.size();
-  util::PCQueue<long> queue(c.cap);
+  util::PCQueue<Elem> queue(c.cap);
   std::vector<std::vector<long> > got(C);
   std::vector<std::thread> threads;
   std::ostringstream out;
@@ -456,7 +507,8 @@ std::string RunPcqFree(const PcqCase &c, unsigned seed, int perturb, bool record
   for (size_t p = 0; p < P; ++p) {
     threads.push_back(std::thread([&, p] {
       free_tid = (int)p; free_rng = seed * 2654435761u + 97u * (unsigned)p + 1u;
-      for (size_t i = 0; i < c.prods[p].size(); ++i) queue.Produce(c.prods[p][i]);
+      fail_ctl = FailCtl(); fail_ctl.fail_pct = failpct; fail_ctl.rng = seed * 7919u + 31u * (unsigned)p + 3u;
+      for (size_t i = 0; i < c.prods[p].size(); ++i) ProduceRetry(queue, c.prods[p][i]);
       free_tid = -1;
       std::unique_lock<std::mutex> l(fm); ++finished; fcv.notify_all();
     }));
@@ -464,7 +516,8 @@ std::string RunPcqFree(const PcqCase &c, unsigned seed, int perturb, bool record
   for (size_t k = 0; k < C; ++k) {
     threads.push_back(std::thread([&, k] {
       free_tid = (int)(P + k); free_rng = seed * 2654435761u + 97u * (unsigned)(P + k) + 1u;
-      for (long i = 0; i < c.quotas[k]; ++i) got[k].push_back(queue.Consume());
+      fail_ctl = FailCtl(); fail_ctl.fail_pct = failpct; fail_ctl.rng = seed * 7919u + 31u * (unsigned)(P + k) + 3u;
+      for (long i = 0; i < c.quotas[k]; ++i) got[k].push_back(ConsumeRetry(queue));
       free_tid = -1;
       std::unique_lock<std::mutex> l(fm); ++finished; fcv.notify_all();
     }));
@@ -805,17 +858,30 @@ int main() {
       in >> b >> m >> data >> sched;
       std::cout << RunChain(b, m, Nats(data), Nats(sched)) << std::endl;
 #endif
-    } else if (op == "pcqfree") {
-      // pcqfree <cap> <prods> <quotas> <seed> <perturb%> <record 0|1>
-      std::string cap, prods, quotas;
-      unsigned seed = 1; int perturb = 0, record = 0, signals = 0;
-      in >> cap >> prods >> quotas >> seed >> perturb >> record >> signals;
+    } else if (op == "pcqf") {
+      // pcqf <cap> <prods> <quotas> <fails> <sched>: <fails> = ';'-separated per thread, ','-separated attempt numbers
+      std::string cap, prods, quotas, fails, sched;
+      in >> cap >> prods >> quotas >> fails >> sched;
       PcqCase c;
       c.cap = atol(cap.c_str());
       std::vector<std::string> ps = Split(prods, ';');
       for (size_t i = 0; i < ps.size(); ++i) c.prods.push_back(Nats(ps[i]));
       c.quotas = Nats(quotas);
-      std::cout << RunPcqFree(c, seed, perturb, record != 0, signals) << std::endl;
+      std::vector<std::string> fs = Split(fails, ';');
+      for (size_t i = 0; i < fs.size(); ++i) c.fails.push_back(Nats(fs[i]));
+      c.sched = Nats(sched);
+      std::cout << RunPcq(c) << std::endl;
+    } else if (op == "pcqfree") {
+      // pcqfree <cap> <prods> <quotas> <seed> <perturb%> <record 0|1>
+      std::string cap, prods, quotas;
+      unsigned seed = 1; int perturb = 0, record = 0, signals = 0, failpct = 0;
+      in >> cap >> prods >> quotas >> seed >> perturb >> record >> signals >> failpct;
+      PcqCase c;
+      c.cap = atol(cap.c_str());
+      std::vector<std::string> ps = Split(prods, ';');
+      for (size_t i = 0; i < ps.size(); ++i) c.prods.push_back(Nats(ps[i]));
+      c.quotas = Nats(quotas);
+      std::cout << RunPcqFree(c, seed, perturb, record != 0, signals, failpct) << std::endl;
     } else {
       std::cout << "bad-op" << std::endl;
     }
